@@ -266,13 +266,22 @@ fn first_diff(a: &Outcome, b: &Outcome) -> String {
 pub fn cmd(args: &Args) -> Report {
     let mut rep = Report::new("C04");
     let mut rng = Rng::new(args.stream_seed("c04"));
-    let models = args.cases(1_600, 32_000);
+    let models = args.cases(24_000, 256_000);
     let with_children = !args.extra.contains_key("nochild");
     let mut stop = false;
     for i in 0..models {
         let model_seed = rng.next_u64();
         let model = gen_model(model_seed);
-        let seeds: Vec<u64> = (0..2 + rng.below(2)).map(|_| rng.next_u64()).collect();
+        // "all seeds": mostly random 64-bit values, sometimes the boundary values
+        let seeds: Vec<u64> = (0..2 + rng.below(2))
+            .map(|_| match rng.below(24) {
+                0 => 0,
+                1 => 1,
+                2 => u64::MAX,
+                3 => u64::from(u32::MAX) + rng.below(3),
+                _ => rng.next_u64(),
+            })
+            .collect();
         let mut digests = Vec::new();
         for s in &seeds {
             vcommon::mark_case(&format!("c04:{}:{}:{}", args.seed, args.shard, i));
@@ -288,6 +297,9 @@ pub fn cmd(args: &Args) -> Report {
             rep.count("restarts_observed", a.trace.iter().filter(|l| l.contains("requests restart")).count() as u64);
             if model.jitter_ns > 0 {
                 rep.count("runs_with_channel_jitter", 1);
+            }
+            if *s <= 1 || *s == u64::MAX {
+                rep.count("runs_with_seed_0_1_or_max", 1);
             }
             let case = case_json(model_seed, *s);
             if a.summary.starts_with("panicked") {
